@@ -66,8 +66,9 @@ def _run_batch(mod, prop, tier, batch, idx, work: Path):
         if cid not in done:
             out.append({"case_id": cid, "status": "inconclusive", "violations": [], "obs": {},
                         "lost": status if status != "ok" else "no_result", "error": err})
-    import shutil
-    shutil.rmtree(wdir, ignore_errors=True)
+    if not os.environ.get("VERIF_KEEP"):
+        import shutil
+        shutil.rmtree(wdir, ignore_errors=True)
     return out
 
 
